@@ -38,14 +38,16 @@ Join(cs) == IF cs = <<>> THEN "" ELSE Head(cs) \o Join(Tail(cs))
 
 RangeOf(f) == {f[i] : i \in DOMAIN f}
 
-RECURSIVE SplitAcc(_, _, _, _)
-SplitAcc(cs, sep, i, cur) ==
-  IF i > Len(cs) THEN <<cur>>
-  ELSE IF cs[i] = sep THEN <<cur>> \o SplitAcc(cs, sep, i + 1, <<>>)
-  ELSE SplitAcc(cs, sep, i + 1, Append(cur, cs[i]))
-
-\* Split("a|b|", "|") = << "a", "b", "" >> (as character sequences): n separators give n+1 parts
-Split(cs, sep) == SplitAcc(cs, sep, 1, <<>>)
+\* Split("a|b|", "|") = << "a", "b", "" >> (as character sequences): n separators give n+1 parts.
+\* Not recursive over the characters (patterns are up to 200 characters long): part k lies between the
+\* (k-1)-th and the k-th separator.
+Split(cs, sep) ==
+  LET at   == {i \in 1..Len(cs) : cs[i] = sep}
+      n    == Cardinality(at)
+      \* position of the k-th separator; 0 and Len(cs)+1 are the borders
+      B(k) == IF k = 0 THEN 0 ELSE IF k = n + 1 THEN Len(cs) + 1
+              ELSE CHOOSE i \in at : Cardinality({j \in at : j < i}) = k - 1
+  IN [k \in 1..(n + 1) |-> SubSeq(cs, B(k - 1) + 1, B(k) - 1)]
 
 RECURSIVE JoinWith(_, _)
 JoinWith(parts, sep) ==
